@@ -11,9 +11,11 @@ def is_crash(rc):
 class Family:
     """one line-protocol family: how to run both sides and how to look at a line as the spec does"""
 
-    def __init__(self, name, exe, spec_view=None, env=None, timeout=120, crash_is_violation=True):
+    def __init__(self, name, exe, spec_view=None, env=None, timeout=120, crash_is_violation=True, spec_match=None):
         self.name, self.exe, self.env, self.timeout = name, exe, env, timeout
         self.spec_view = spec_view or (lambda op, line: line)
+        # spec_match(op, impl_line, spec_line): does the implementation's answer satisfy the spec's?  (default: equal views)
+        self.spec_match = spec_match or (lambda op, c, sp: self.spec_view(op, c) == self.spec_view(op, sp))
         self.crash_is_violation = crash_is_violation
 
     def run_c(self, text):
@@ -50,7 +52,7 @@ def judge(fam, ops):
         op = ops[i] if i < len(ops) else ""
         c = cl[i]
         spec_line = sp if sp is not None else mm
-        c_ok_spec = fam.spec_view(op, c) == fam.spec_view(op, spec_line)
+        c_ok_spec = fam.spec_match(op, c, spec_line)
         if mm == "ub" or mm.startswith("fault"):
             # model predicts undefined behaviour / memory fault at this op: a property failure in itself
             return {"kind": "spec", "at": i, "detail": "model predicts %s at op %r; implementation printed %r" % (mm, op, c)}
